@@ -251,6 +251,8 @@ theorem fcgiAfterBegin_sim (hs : RecSim R₁ R₂ Rel) (fuel reqId : Nat) (keep 
         | error o => exact ⟨rfl, rfl, hp2⟩
         | ok pbody =>
           simp only
+          unfold fcgiAfterParams
+          simp only
           split
           · exact fcgiStdinEof_sim hs _ t1 t2 out hp2
           · exact ⟨rfl, rfl, hp2⟩
